@@ -305,12 +305,83 @@ def variable_head(ctx, cr):
     ctx.ob(rule, rule + ":inserts-all-indices", ok, "parser::access must insert QueryPart::AllIndices after a leading variable (is_variable test + Vec::insert of AllIndices)", fn=fs[0])
 
 
+def emptiness_exception(ctx, cr):
+    """the one documented exception to transparency — `empty` on a BARE variable tests the result set — is taken exactly for a query
+    that ends in a filter (where the in-place and the variable form agree anyway) or that consists of a single variable part; a
+    variable followed by anything (`%v[*]`, `%v.x`) must be treated like the in-place query"""
+    rule = "R-C15-emptiness-exception"
+    key = "rules::eval::unary_operation"
+    f = cr.fns.get(key)
+    if not f:
+        ctx.lost(rule, rule + ":unary_operation", key)
+        return
+    names = {n: l for n, l in f["names"] if isinstance(l, int)}
+    tgt = names.get("empty_on_expr")
+    if tgt is None:
+        ctx.lost(rule, rule + ":empty_on_expr", "the local deciding the special case in unary_operation")
+        return
+    QP = "rules::exprs::QueryPart"
+    qn = [v["name"] for v in cr.adts[QP]["variants"]]
+    seen = {}
+
+    class H(ai.Hooks):
+        def call(self, a, st, term, callee, args):
+            p = M.norm_path(callee.get("path", ""))
+            decl = M.norm_path(callee.get("decl", ""))
+            mon = st.mon or Mon()
+            if mon.get("done"):
+                return [(ai.AI.DIVERGE, mon)]
+            if decl.endswith("EvalContext::query"):
+                return [(("enum", ai.RESULT, 0, (("sym", "LHS"),)), mon)]
+            if p.endswith("QueryPart::is_variable"):
+                who = a.resolve(st, args[0])
+                return [(("bool", True), mon.set(var=True)), (("bool", False), mon.set(var=False))]
+            return None
+
+        def constrained(self, a, st, sid, val):
+            if val[0] == "enum" and val[1] == QP:
+                st.mon = (st.mon or Mon()).set(last=qn[val[2]])
+
+        def stmt(self, a, st, frame, s):
+            if frame is st.frames[0] and s.get("p") == tgt and "rv" in s:
+                v = a.resolve(st, a.read_place(st, frame, tgt))
+                mon = st.mon or Mon()
+                val = v[1] if v[0] in ("bool", "sym") else ai.fmt_val(v)
+                seen.setdefault((mon.get("last"), mon.get("var")), set()).add(val)
+                st.mon = mon.set(done=True)
+    a = ai.AI(cr, H())
+    try:
+        a.run(key, mon=Mon())
+    except ai.Undecided as e:
+        ctx.ob(rule, rule + ":table", False, "undecided %s" % e, fn=f)
+        return
+    ctx.states += a.n_states
+    bad = []
+    import re as _re
+    for (last, var), vals in sorted(seen.items(), key=str):
+        for v in vals:
+            if last in ("Filter", "MapKeyFilter"):
+                ok = v is True
+            elif var is False:
+                ok = v is False
+            elif var is True:
+                ok = isinstance(v, str) and _re.fullmatch(r"\(LEN\([^()]*\) Eq 1\)", v) is not None
+            else:
+                ok = v is False
+            if not ok:
+                bad.append("last part %s (is_variable=%s): special case decided by %s — expected true for filters, `len == 1` for a variable part, false otherwise" % (last, var, v))
+    kinds = set(k[0] for k in seen)
+    ctx.ob(rule, rule + ":table", not bad and {"Filter", "MapKeyFilter"} <= kinds and len(kinds) >= len(qn) - 1, "; ".join(bad[:3]) or "%d (last part, is_variable) cases over %d part kinds" % (len(seen), len(kinds)), fn=f,
+           sample={"cases": sorted("%s/%s -> %s" % (k[0], k[1], sorted(map(str, v))) for k, v in seen.items())})
+
+
 def run(ctx):
     cr = ctx.lib
     scope_chain(ctx, cr)
     literal_agreement(ctx, cr)
     parameter_binding(ctx, cr)
     variable_head(ctx, cr)
+    emptiness_exception(ctx, cr)
     ctx.assumptions += [
         "equivalence of a program with its inlined form is behavioural and not claimed; the emptiness test on a bare variable is the documented exception",
     ]
